@@ -61,10 +61,10 @@ fn cuts(n: usize, maxparts: usize) -> BoxedStrategy<Vec<usize>> {
 
 fn tiling(maxr: usize, maxc: usize) -> BoxedStrategy<Vec<Vec<Block>>> {
   (1..=maxr, 1..=maxc).prop_flat_map(|(r, c)| {
-    cuts(r, 4).prop_flat_map(move |heights| {
+    cuts(r, 7).prop_flat_map(move |heights| {
       let per_band: Vec<BoxedStrategy<Vec<Block>>> = heights.iter().map(|h| {
         let h = *h;
-        cuts(c, 4).prop_flat_map(move |widths| {
+        cuts(c, 6).prop_flat_map(move |widths| {
           let n = widths.len();
           (proptest::collection::vec(any::<bool>(), n), proptest::collection::vec(proptest::bool::weighted(0.3), n)).prop_map(move |(sc, inl)| {
             widths.iter().enumerate().map(|(i, w)| Block { rows: h, cols: *w, scalar: h == 1 && *w == 1 && sc[i], inline: inl[i] }).collect::<Vec<Block>>()
@@ -79,9 +79,9 @@ fn tiling(maxr: usize, maxc: usize) -> BoxedStrategy<Vec<Vec<Block>>> {
 impl Prop for C11 {
   type Case = Case;
   const ID: &'static str = "C11";
-  fn budget(t: Tier) -> u32 { t.pick(16_000, 200_000) }
+  fn budget(t: Tier) -> u32 { t.pick(12_000, 200_000) }
   fn strategy(t: Tier, _k: &Known) -> BoxedStrategy<Case> {
-    let (mr, mc) = t.pick((6, 5), (9, 8)); // (a four-band stack whose inner bands differ in height needs at least 5 result rows)
+    let (mr, mc) = t.pick((8, 6), (10, 8)); // (a four-band stack whose inner bands differ in height needs at least 5 result rows)
     (pick(all_ek()), tiling(mr, mc), 0u8..10, any::<proptest::sample::Index>(), any::<proptest::sample::Index>(), any::<bool>(), pick(all_ek()))
       .prop_map(|(ek, bands, badsel, bi, pi, up, ek2)| {
         let b = bi.index(bands.len());
@@ -109,7 +109,7 @@ impl Prop for C11 {
       }).boxed()
   }
   fn rule() -> &'static str {
-    "case = tiling of an RxC result (R ≤ 6, C ≤ 5 quick / R ≤ 9, C ≤ 8 thorough) into 1-4 row bands of 1-4 blocks each; every block is a scalar, a 1x1 \
+    "case = tiling of an RxC result (R ≤ 8, C ≤ 6 quick / R ≤ 10, C ≤ 8 thorough) into 1-7 row bands of 1-6 blocks each (two, three, four and five-or-more operands take different concatenation kernels); every block is a scalar, a 1x1 \
      matrix, a row vector, a column vector or a matrix, bound to a variable or written inline; all element kinds; elements are distinct by \
      final position. Invalid variants perturb one block height/width by ±1, perturb two blocks in compensating directions (one taller and one shorter in a band, one wider and one narrower in two bands, so that cell totals can still agree), or give one block another kind. Non-trivial = ≥ 2 blocks of \
      which one is not a scalar, or an invalid variant; distinct key = (block shape classes per band, kind, invalid class, outcome)."
